@@ -71,6 +71,17 @@ def accepts (sp : Spec) (log : List Rec) : Bool :=
   let μ := monOf sp log
   μ.ok && quiet μ
 
+/-- the acceptor over an observation cut into segments at the assignments to `state.timeout`: each
+segment is read with the timeouts in force during it (an entry is due `timeout` — as valid at the
+entry — later; exits disarm whatever is armed) -/
+def monSegs (μ : Mon) : List (Spec × List Rec) → Mon
+  | [] => μ
+  | (sp, recs) :: rest => monSegs (recs.foldl (mstep sp) μ) rest
+
+def acceptsV (segs : List (Spec × List Rec)) : Bool :=
+  let μ := monSegs Mon.init segs
+  μ.ok && quiet μ
+
 /-- the acceptor's parameters for a configuration of the model -/
 def specOf (cfg : Cfg) : Spec := { timeout := cfg.timeout, routes := cfg.async && cfg.onExc }
 
